@@ -10,7 +10,7 @@ from .. import sym
 from ..evalfn import SELF, property_backing
 from ..source import AnalysisError
 from ..sym import canon
-from .common import (child_receiver, over_all_children, own_event, CORE, G, GX, plain, truth_equiv, working_for, increments_by, loop_conditions, store_increment, Roles, cur, dominates, final_value, fld, guard_subset, has_lit, hist_fill, hist_store, is_entry, lits, loops_prefix,
+from .common import (selects_strategies, child_receiver, over_all_children, own_event, CORE, G, GX, plain, truth_equiv, working_for, increments_by, loop_conditions, store_increment, Roles, cur, dominates, final_value, fld, guard_subset, has_lit, hist_fill, hist_store, is_entry, lits, loops_prefix,
                      mentions_field, mentions_param, postdominates, series_name, short)
 
 SEC_CLASSES = ["SecurityBase", "Security", "FixedIncomeSecurity", "CouponPayingSecurity", "HedgeSecurity", "CouponPayingHedgeSecurity"]
@@ -135,7 +135,7 @@ def security_update(chk, pid):
                            "security value must be position x current price x multiplier", where=fi.where, expected=exp, found=short(leaf),
                            sample={"value": short(leaf), "guard": sym.fmt_guard(cg)[:160]})
                 # ---- C01.R1b / C02: where the price comes from
-                if pid in ("C01", "C02", "C04") and K == "SecurityBase":
+                if pid in ("C01", "C02", "C04", "C05") and K == "SecurityBase":
                     ps = ("fld", SELF, "_prices_set", 0)
                     for prices_known in (True, False):
                         sc = [(canon(ps), prices_known), (date_same, False)]
@@ -149,7 +149,12 @@ def security_update(chk, pid):
                             okp = pf[0] == "sub" and pf[1][0] == "attr" and pf[1][2] == "values" and pf[1][1][0] == "fld" and pf[1][1][2] == R.SPRICES and is_inow(pf[2], guard=g2)
                             exp_p = "%s.values[inow]" % R.SPRICES
                         else:
-                            okp = canon(pf) == canon(("sub", ("param", "data"), fld(SELF, "name")))
+                            quote = pf
+                            if (pf[0] == "mcall" and len(pf) == 5 and pf[2] == "get" and len(pf[3]) == 2 and not pf[4] and canon(pf[1]) == canon(("param", "data"))
+                                    and canon(pf[3][1]) in (canon(("nan",)), canon(("attr", ("mod", "np"), "nan")), canon(("func", "np.nan")))):
+                                # a row that lacks the security gives a missing price (which every trade and every open position refuses), one that has it gives the quote
+                                quote = ("sub", pf[1], pf[3][0])
+                            okp = canon(quote) == canon(("sub", ("param", "data"), fld(SELF, "name")))
                             exp_p = "data[self.name]"
                             # ... and a quote that was handed in is recorded in the security's own price history (that is what `prices` reports)
                             rec = [e for e in S.events if hist_store(e) and series_name(hist_store(e)[0]) == R.SPRICES and not sym.inconsistent(sym.sat(tuple(g2) + tuple(lits(plain(e.guard)))))
@@ -667,11 +672,11 @@ def strategy_update(chk, pid):
     if pid == "C01":
         pairs = [(R.VALUE, R.VALUES, "C01"), (R.NOTIONAL, R.NOTIONALS, "C01"), (R.CAPITAL, R.CASH, "C01")]
     elif pid == "C03":
-        pairs = [(R.PRICE, R.PRICES, "C03")]
+        pairs = [(R.PRICE, R.PRICES, "C03"), (R.NET_FLOWS, R.FLOWS_ROWS, "C03"), (R.VALUE, R.VALUES, "C03")]  # the recurrence is stated over the recorded price, value and flow rows
     elif pid == "C07":
         pairs = [(R.LAST_FEE, R.FEES, "C07"), (R.NET_FLOWS, R.FLOWS_ROWS, "C07"), (R.CAPITAL, R.CASH, "C07")]
     elif pid == "C17":
-        pairs = [(R.NOTIONAL, R.NOTIONALS, "C17")]
+        pairs = [(R.NOTIONAL, R.NOTIONALS, "C17"), (R.CAPITAL, R.CASH, "C17")]  # hedges and swaps move cash without moving value or notional: the cash row follows every change
     elif pid == "C16":
         # the rows of the bankruptcy date hold the post-liquidation figures (read after the liquidation, not carried over from before it)
         pairs = [(R.CAPITAL, R.CASH, "C16"), (R.VALUE, R.VALUES, "C16")]
@@ -1010,7 +1015,8 @@ def _bankruptcy(chk, pid, S, fi, host, R, the_val):
                    expected="val < 0", found=sym.fmt_guard(w.guard)[:300], sample={"guard": sym.fmt_guard(w.guard)[:200]})
             chk.ob("C16.R1", not extra, CORE, host, "bankrupt:no-extra-condition", "a negative root value is always flagged (no further condition)", where=w.where,
                    found=sym.fmt_guard(extra)[:200])
-            fl = [c for c in S.calls("flatten") if c.seq > w.seq and guard_subset(c.guard, w.guard) and c.recv == SELF]
+            # (either order: the liquidation may be pushed down before or after the flag is raised - what depends on that order is checked where the flag is read)
+            fl = [c for c in S.calls("flatten") if (guard_subset(c.guard, w.guard) if c.seq > w.seq else guard_subset(w.guard, c.guard)) and c.recv == SELF]
             chk.ob("C16.R2", bool(fl), CORE, host, "bankrupt:flatten", "all positions are closed on the bankruptcy date", where=w.where, expected="self.flatten() on the same path")
         others = [w for w in bw if canon(w.value) != canon(sym.TRUE)]
         chk.ob("C16.R1", not others, CORE, host, "bankrupt-not-cleared-in-update", "update never clears the bankruptcy flag (terminal)", where=fi.where)
@@ -1194,6 +1200,34 @@ def outlay_rules(chk, pid):
                where=C.fn.where)
 
 
+def _marks_parents_tree(S, R, u):
+    """the other spelling of handing the flag on: the parent is told not to mark (a constant False) and the trade marks the PARENT's tree itself,
+    exactly under the caller's flag, on every normal exit"""
+    if u is None or canon(u) != canon(sym.FALSE):
+        return False
+    upd = canon(("param", "update"))
+    proot = fld(fld(SELF, "parent"), "root")
+    adj = S.calls("adjust")
+    if not adj:
+        return False
+    booked = [l for l in plain(adj[-1].guard)]
+    exits = [st for st, v in S.exits if all(sym.lit_holds(sym.sat(G(st)), l[0], l[1]) for l in booked)]  # the exits of a trade that was booked
+    if not exits:
+        return False
+    for st in exits:
+        g0 = tuple(G(st))
+        gu = sym.sat(g0 + ((upd, True),))
+        if sym.inconsistent(gu):
+            return False
+        sv = sym.restrict(final_value(st, proot, R.STALE), gu)
+        if not all(canon(leaf) == canon(sym.TRUE) for _, leaf in sym.cases(sv)):
+            return False
+    for e in S.events:
+        if e.kind == "write" and e.field == R.STALE and not sym.lit_holds(sym.sat(e.guard), upd, True):
+            return False  # marked although the caller deferred the update
+    return True
+
+
 def transact_rules(chk, pid):
     public_signature(chk, "SecurityBase", "transact")
     public_signature(chk, "SecurityBase", "allocate")
@@ -1244,7 +1278,7 @@ def transact_rules(chk, pid):
         adj_for_amount = adj
     if pid == "C09" and adj:
         u_ = bound_args(adj[-1], chk.prog).get("update")
-        chk.ob("C01.R6", u_ is not None and canon(u_) == canon(("param", "update")), CORE, host, "adjust-update-flag",
+        chk.ob("C01.R6", (u_ is not None and canon(u_) == canon(("param", "update"))) or _marks_parents_tree(S, R, u_), CORE, host, "adjust-update-flag",
                "the caller's update flag is handed to the parent (the parent marks the tree it belongs to: inside a shadow copy the security's own root pointer may be stale)", where=adj[-1].where)
     for a in adj:
         gg = G(a)
@@ -1266,7 +1300,8 @@ def transact_rules(chk, pid):
                    found=short(f, 160) if f else "missing")
             if a is adj[-1] and pid in ("C01", "C09"):
                 u = ab.get("update")
-                chk.ob("C01.R6", u is not None and canon(u) == canon(("param", "update")), CORE, host, "adjust-update-flag", "the caller's update flag is handed to the parent", where=a.where)
+                chk.ob("C01.R6", (u is not None and canon(u) == canon(("param", "update"))) or _marks_parents_tree(S, R, u), CORE, host, "adjust-update-flag",
+                       "the caller's update flag is handed to the parent", where=a.where)
         if pid in ("C03", "C07"):
             fl = ab.get("flow")
             chk.ob("C03.R4", fl is not None and canon(fl) == canon(sym.FALSE), CORE, host, "adjust-flow:trade", "trade proceeds and fees are never a flow", where=a.where,
@@ -1426,7 +1461,7 @@ def adjust_rules(chk, pid):
                 chk.ob("C03.R3", ok, CORE, host, "credit-flow:%s" % ("flow" if is_flow else "non-flow" if not_flow else "unconditional"),
                        "the flow accumulator grows by the amount exactly when the adjustment is a flow", where=fi.where,
                        expected="net_flows + amount under flow; unchanged otherwise", found=short(leaf), sample={"net_flows": short(leaf), "guard": sym.fmt_guard(cg)})
-        if pid in ("C01", "C08"):
+        if pid in ("C01", "C08", "C03"):
             # callers (SecurityBase.transact) rely on adjust to mark the tree stale: on every exit, under `update`
             root = fld(SELF, "root")
             gu = sym.sat(tuple(g0) + ((canon(update), True),))
@@ -1643,6 +1678,15 @@ def strategy_allocate_rules(chk, pid):
             ok = amt is not None and equal(amt, ("*", amount, w)) and over_all_children(e.recv[1], SELF) and not e.loops[-1].filter
         chk.ob("C06.R7", ok, CORE, host, "spread-by-weight", "a strategy spreads received capital over all its children in proportion to their current weights", where=fi.where,
                expected="c.allocate(amount * c.weight) for every child", found="%d spread sites" % len(spread))
+        U = chk.summary(CORE, "StrategyBase", "update", host="StrategyBase")
+        raised = [w for w in U.writes("bankrupt", SELF) if canon(w.value) == canon(sym.TRUE)]
+        flag_first = any(c.recv == SELF and any(c.seq > w.seq for w in raised) for c in U.calls("flatten"))
+        if pid == "C16" and flag_first:
+            # the liquidation itself runs through this push-down, with the flag already raised: it cannot depend on the flag
+            for e in spread:
+                dep = [l for l in plain(e.guard) if sym.contains(l[0], lambda n: isinstance(n, tuple) and len(n) == 4 and n[0] == "fld" and n[2] == "bankrupt")]
+                chk.ob("C16.R2", not dep, CORE, host, "spread-while-bankrupt", "the push-down of an allocation does not depend on the bankruptcy flag (flatten pushes the liquidation down after the flag is raised)",
+                       where=e.where, found=sym.fmt_guard(dep)[:160])
     if pid in ("C19", "C06"):
         direct = [e for e in S.calls("allocate") if e.recv is not None and e.recv[0] == "sub"]
         cc = S.calls("_create_child_if_needed")
@@ -2002,7 +2046,7 @@ def pushes_down(chk, F, pname, field, only_strats=False):
         b = bound_args(e, chk.prog).get(pname)
         filt = [l for l in plain(e.guard)]
         if only_strats:
-            filt_ok = (all(p and a[0] == "call" and a[1] == "isinstance" and a[2][1] == ("class", "StrategyBase") for a, p in filt) and len(filt) == 1) if kind == "all" else not filt
+            filt_ok = (all(selects_strategies(a, p) for a, p in filt) and len(filt) == 1) if kind == "all" else not filt
         else:
             filt_ok = not filt and kind == "all"
         if over_children and b is not None and canon(b) == arg and filt_ok:
@@ -2050,7 +2094,7 @@ def recursion_rules(chk, pid, which):
             same_arg = e.args and canon(e.args[0]) == canon(arg)
             filt = [l for l in plain(e.guard)]
             if only_strats:
-                filt_ok = (all(p and a[0] == "call" and a[1] == "isinstance" and a[2][1] == ("class", "StrategyBase") for a, p in filt) and len(filt) == 1) if kind == "all" else not filt
+                filt_ok = (all(selects_strategies(a, p) for a, p in filt) and len(filt) == 1) if kind == "all" else not filt
             else:
                 filt_ok = not filt and kind == "all"
             ok = ok or (over_children and same_arg and filt_ok)
